@@ -403,8 +403,13 @@ class Gen:
                     outer_refs.add(ck)
                     self.features.add("subcircuit-control-outer-key")
                 mk = cirq.MeasurementKey(ck)
-                form = self.t.draw(6, "ctl-form")
-                if form == 0:
+                form = self.t.draw(7, "ctl-form")
+                if form == 6 and len(local_keys) == 2:
+                    # an expression over both of the sub-circuit's keys (which a key map may rename crosswise)
+                    su, sv = sympy.Symbol("u"), sympy.Symbol("v")
+                    cond = cirq.SympyCondition([su > sv, sympy.Eq(su, sv), su < sv][self.t.draw(3, "rel2")])
+                    self.features.add("subcircuit-control-two-local-keys")
+                elif form in (0, 6):
                     cond = cirq.KeyCondition(mk)
                 elif form == 1:
                     cond = cirq.KeyCondition(mk, index=0)
@@ -448,8 +453,11 @@ class Gen:
         # repetition ids only make a difference (and are only well defined) for two or more repetitions
         use_ids = reps >= 2 and self.t.chance(1, 2, "sub-rep-ids?")
         kmap = {}
+        if len(local_keys) == 2 and self.t.chance(1, 4, "sub-keymap-swap?"):
+            kmap = {"u": "v", "v": "u"}        # a map may give one key the former name of another
+            self.features.add("subcircuit-key-map-swap")
         for lk in local_keys:
-            if self.t.chance(1, 2, "sub-keymap?"):
+            if not kmap and self.t.chance(1, 2, "sub-keymap?"):
                 kmap[lk] = self._pick(["m", "n", "a", "b"], "sub-mapped")
         if len(set(kmap.get(lk, lk) for lk in local_keys)) != len(local_keys):
             return None
